@@ -53,9 +53,11 @@ def build(module, race, workdir):
     return out
 
 
-def run_shard(binary, test, checks, seed, outpath, timeout_s, extra_env, cwd):
+def run_shard(binary, test, checks, seed, outpath, timeout_s, extra_env, cwd, tier="quick"):
     env = goenv(extra_env)
     env["VERIF_OUT"] = outpath
+    env["VERIF_TIER"] = tier
+    env["VERIF_RAPID_SEED"] = str(seed)
     cmd = [binary, "-test.run", f"^({test})$", f"-rapid.checks={checks}", f"-rapid.seed={seed}",
            "-rapid.nofailfile", "-rapid.shrinktime=60s", f"-test.timeout={timeout_s}s", "-test.count=1"]
     t0 = time.time()
@@ -208,6 +210,8 @@ def run(prop, spec, a, base_seed, workdir, rundir, t_start):
     for l in legs:
         n, shards = l[a.tier]
         n = max(1, int(n * a.scale))
+        if l["fixed"]:
+            shards = 1
         for s in range(shards):
             sd = seed_for(base_seed, prop, l["test"], s)
             outp = os.path.join(workdir, f"{l['test'].replace('|','_')}-{s}.json")
@@ -216,7 +220,7 @@ def run(prop, spec, a, base_seed, workdir, rundir, t_start):
     maxw = min(16, max(1, len(jobs)))
     with cf.ThreadPoolExecutor(max_workers=maxw) as ex:
         futs = [ex.submit(run_shard, bins[(l["module"], l["race"])], l["test"], 1 if l["fixed"] else n, sd, outp,
-                          l["timeout_s"], l["env"], rundir) for (l, n, sd, outp) in jobs]
+                          l["timeout_s"], l["env"], rundir, a.tier) for (l, n, sd, outp) in jobs]
         for f, (l, n, sd, outp) in zip(futs, jobs):
             r = f.result()
             r["leg"] = l
@@ -313,7 +317,7 @@ def run(prop, spec, a, base_seed, workdir, rundir, t_start):
             "requested_cases": requested_total,
             "replayed_inputs": replayed,
             "per_check": checks,
-            "exhaustive": False,
+            "exhaustive": bool(spec.get("exhaustive_subspace")) and False,
         },
         "assumptions": spec.get("assumptions", []),
         "wall_s": round(time.time() - t_start, 2),
